@@ -631,7 +631,28 @@ func (si *stackIterator) ProgramCounter() experimental.ProgramCounter {
 
 // Function implements the same method as documented on experimental.StackIterator.
 func (si *stackIterator) Function() experimental.InternalFunction {
-	return si
+	// A value of its own per frame, not the iterator: callers may keep the result beyond the next call
+	// to Next (experimental.MultiFunctionListenerFactory buffers the frames for its listeners), and the
+	// iterator itself only describes the frame it currently points to.
+	return stackIteratorFunction{def: si.currentDef, eng: si.eng}
+}
+
+// stackIteratorFunction implements experimental.InternalFunction for one frame of stackIterator.
+type stackIteratorFunction struct {
+	def *wasm.FunctionDefinition
+	eng *engine
+}
+
+// Definition implements the same method as documented on experimental.InternalFunction.
+func (f stackIteratorFunction) Definition() api.FunctionDefinition {
+	return f.def
+}
+
+// SourceOffsetForPC implements the same method as documented on experimental.InternalFunction.
+func (f stackIteratorFunction) SourceOffsetForPC(pc experimental.ProgramCounter) uint64 {
+	upc := uintptr(pc)
+	cm := f.eng.compiledModuleOfAddr(upc)
+	return cm.getSourceOffset(upc)
 }
 
 // Definition implements the same method as documented on experimental.InternalFunction.
